@@ -10,7 +10,8 @@ LEVEL = "exploration"
 RULE = ("inputs: example files (both versions), generated LASFiles (C03 generator + odd units, NaN, text curves, ~W "
         "items named like STRT/STOP/STEP in other letter cases) and generated texts (C05); two writer configurations "
         "drawn from version {1.2, 2} x wrap x len_numeric_field x spacer x lhs_spacer x data_width x header_width x "
-        "data_section_header x mnemonics_header with the same numeric format; each configuration writes a FRESH "
+        "data_section_header x mnemonics_header with the same numeric format (fmt and, 1 in 3, a shared column_fmt; "
+        "data_width also exactly the widest data token + {0,1,2}; samples with more digits than the format prints); each configuration writes a FRESH "
         "object; both outputs are re-read with the same mnemonic_case in {upper, preserve, lower}. Oracle "
         "(metamorphic): canonical contents of the two re-reads are equal (header values numerically, data exactly) "
         "apart from the VERS and WRAP items. Non-trivial: the configurations differ in version or wrap and in >= 1 "
